@@ -395,3 +395,241 @@ def exact_arithmetic(rep: Report, rule: str, funcs: Iterable[FuncInfo]) -> int:
             ok = _provably_fraction(l, cfg, node, rd) or _provably_fraction(r, cfg, node, rd)
             rep.check(ok, rule, f"{f.short}: division{tag} is exact (an operand is provably a Fraction)", f.loc(x), construct=txt + tag, detail="" if ok else "true division of values that can both be ints yields a binary float: results are wrong above 2**53 and rationals such as 1/3 are rounded", function=f.qualname)
     return n
+
+
+# ----------------------------------------------------------------------------- T8 clone completeness
+def class_state_fields(ci: ClassInfo) -> Tuple[Dict[str, FuncInfo], Dict[str, List[FuncInfo]]]:
+    """(fields assigned by an __init__ of the MRO, fields mutated by some other method of the MRO)."""
+    init_fields: Dict[str, FuncInfo] = {}
+    mutated: Dict[str, List[FuncInfo]] = {}
+    for k in ci.mro:
+        for key, m in k.methods.items():
+            if m.name == "__init__":
+                for f in self_attr_stores(m.node):
+                    init_fields.setdefault(f, m)
+            elif m.name in ("clone", "_clone_to", "__eq__", "__hash__", "__repr__", "__str__", "__deepcopy__", "__copy__", "__setstate__"):
+                continue
+            else:
+                for f in list(self_attr_stores(m.node)) + list(attr_mutations(m.node)):
+                    mutated.setdefault(f, []).append(m)
+    return init_fields, mutated
+
+
+def _setter_fields(ci: ClassInfo, prop: str) -> Set[str]:
+    m = None
+    for k in ci.mro:
+        if prop + ".setter" in k.methods:
+            m = k.methods[prop + ".setter"]
+            break
+    if m is None:
+        return set()
+    return set(self_attr_stores(m.node)) | set(attr_mutations(m.node))
+
+
+def _stores_through(fn: ast.AST, recv: str) -> Dict[str, List[ast.AST]]:
+    out = dict(self_attr_stores(fn, recv))
+    for k, v in attr_mutations(fn, recv).items():
+        out.setdefault(k, []).extend(v)
+    return out
+
+
+def clone_coverage(idx: Index, ci: ClassInfo, clone: FuncInfo) -> Tuple[Dict[str, ast.AST], Dict[str, ast.AST], Optional[str]]:
+    """(covered fields -> a covering node, aliased fields -> node, name of the clone variable)."""
+    covered: Dict[str, ast.AST] = {}
+    aliased: Dict[str, ast.AST] = {}
+    var = None
+    ctor_call = None
+    for n in walk_no_nested(clone.node):
+        if isinstance(n, ast.Assign) and len(n.targets) == 1 and isinstance(n.targets[0], ast.Name) and isinstance(n.value, ast.Call):
+            fn = norm(n.value.func)
+            obj = idx.resolve_dotted(clone.module, fn) if fn.replace(".", "").replace("_", "").isalnum() else None
+            if (isinstance(obj, ClassInfo) and (obj in ci.mro or ci in obj.mro)) or fn in ("type(self)", "self.__class__"):
+                var = n.targets[0].id
+                ctor_call = n.value
+                break
+    if var is None:
+        for n in walk_no_nested(clone.node):
+            if isinstance(n, ast.Return) and isinstance(n.value, ast.Call):
+                fn = norm(n.value.func)
+                obj = idx.resolve_dotted(clone.module, fn) if fn.replace(".", "").replace("_", "").isalnum() else None
+                if (isinstance(obj, ClassInfo) and (obj in ci.mro or ci in obj.mro)) or fn in ("type(self)", "self.__class__"):
+                    ctor_call = n.value
+    if ctor_call is not None:
+        for a in list(ctor_call.args) + [k.value for k in ctor_call.keywords]:
+            for x in ast.walk(a):
+                if isinstance(x, ast.Attribute) and isinstance(x.value, ast.Name) and x.value.id == "self":
+                    covered.setdefault(x.attr, ctor_call)
+                    for f in _setter_fields(ci, x.attr) or []:
+                        covered.setdefault(f, ctor_call)
+                    # property `self.name` reads `_name`
+                    covered.setdefault("_" + x.attr, ctor_call)
+
+    def absorb(fn: FuncInfo, recv: str, depth: int) -> None:
+        for f, nodes in _stores_through(fn.node, recv).items():
+            covered.setdefault(f, nodes[0])
+            for sf in _setter_fields(ci, f):
+                covered.setdefault(sf, nodes[0])
+            for nd in nodes:
+                if isinstance(nd, ast.Assign) and isinstance(nd.value, ast.Attribute) and isinstance(nd.value.value, ast.Name) and nd.value.value.id == "self" and nd.value.attr == f:
+                    aliased.setdefault(f, nd)
+        if depth <= 0:
+            return
+        for c in walk_no_nested(fn.node):
+            if not isinstance(c, ast.Call) or not isinstance(c.func, ast.Attribute):
+                continue
+            # X._clone_to(self, recv, ...) / self._clone_to(recv) / super()._clone_to(recv)
+            args = [norm(a) for a in c.args]
+            if c.func.attr == "_clone_to" and recv in args:
+                base = c.func.value
+                target = None
+                if isinstance(base, ast.Name) and base.id == "self":
+                    target = ci.lookup("_clone_to")
+                elif isinstance(base, ast.Call) and norm(base.func) == "super":
+                    for k in (fn.cls.mro[1:] if fn.cls else []):
+                        if "_clone_to" in k.methods:
+                            target = k.methods["_clone_to"]
+                            break
+                else:
+                    obj = idx.resolve_dotted(fn.module, norm(base))
+                    if isinstance(obj, ClassInfo):
+                        target = obj.lookup("_clone_to")
+                if target is not None:
+                    params = [p for p in target.params() if p != "self"]
+                    other = params[0] if params else "other"
+                    absorb(target, other, depth - 1)
+            elif isinstance(c.func.value, ast.Name) and c.func.value.id == recv:
+                m = ci.lookup(c.func.attr)
+                if m is not None and m.name not in ("clone",):
+                    for f in _stores_through(m.node, "self"):
+                        covered.setdefault(f, c)
+
+    if var is not None:
+        absorb(clone, var, 3)
+    return covered, aliased, var
+
+
+def clone_completeness(rep: Report, rule: str, idx: Index, ci: ClassInfo, min_fields: int = 0) -> int:
+    clone = ci.methods.get("clone")
+    if clone is None:
+        return 0
+    rep.note_function(clone.qualname)
+    init_fields, mutated = class_state_fields(ci)
+    state = sorted(f for f in init_fields if f in mutated)
+    covered, aliased, var = clone_coverage(idx, ci, clone)
+    if var is None and not covered:
+        rep.inconclusive(rule, f"{ci.name}.clone: construction idiom not recognised", clone.loc(), function=clone.qualname)
+        return 0
+    n = 0
+    for f in state:
+        reason = is_excepted(rep.prop, rule, ci.qualname, f)
+        if reason:
+            rep.ok(rule, f"{ci.name}.clone carries {f}", clone.loc(), construct=f, detail="triaged exception: " + reason, function=clone.qualname)
+            rep.count("triaged_exceptions")
+            continue
+        n += 1
+        ok = f in covered
+        rep.check(
+            ok,
+            rule,
+            f"{ci.name}.clone carries state field {f}",
+            clone.loc(covered[f]) if ok else clone.loc(),
+            construct=f"{ci.name}.clone: {f}" + ("" if ok else " is never assigned on the clone"),
+            detail="" if ok else f"{f} is initialised by {init_fields[f].short} and changed by {mutated[f][0].short}, but neither {ci.name}.clone nor the _clone_to helpers it calls assign it on the copy: the clone starts from the constructor's default instead of the original's value",
+            function=clone.qualname,
+        )
+    for f, nd in sorted(aliased.items()):
+        if f in mutated and any(f in attr_mutations(m.node) for m in mutated[f]):
+            n += 1
+            rep.bad(rule, f"{ci.name}.clone copies (does not alias) the container {f}", clone.loc(nd), construct=norm(nd), detail=f"{f} is mutated in place by {mutated[f][0].short}; sharing the object makes edits of one problem visible in the other", function=clone.qualname)
+    return n
+
+
+# ----------------------------------------------------------------------------- T9 eq / hash agreement
+def _self_attrs(fn: ast.AST, recv: str = "self") -> Set[str]:
+    return {n.attr for n in walk_no_nested(fn) if isinstance(n, ast.Attribute) and isinstance(n.value, ast.Name) and n.value.id == recv}
+
+
+def eq_hash_agreement(rep: Report, rule: str, ci: ClassInfo) -> int:
+    """attributes hashed are attributes compared; __eq__ can return True; every dict compared by iterating one
+    side is also compared from the other side (length test or reverse loop)."""
+    eq = ci.methods.get("__eq__")
+    hs = ci.methods.get("__hash__")
+    n = 0
+    if eq is None:
+        return 0
+    rep.note_function(eq.qualname)
+    oth = [p for p in eq.params() if p != "self"]
+    oth = oth[0] if oth else "oth"
+    if hs is not None:
+        rep.note_function(hs.qualname)
+        ha, ea = _self_attrs(hs.node), _self_attrs(eq.node)
+        # attributes read through helper methods of the class called from __eq__ / __hash__
+        for fn, acc in ((hs, ha), (eq, ea)):
+            for c in walk_no_nested(fn.node):
+                if isinstance(c, ast.Call) and isinstance(c.func, ast.Attribute) and isinstance(c.func.value, ast.Name) and c.func.value.id == "self":
+                    m = ci.lookup(c.func.attr)
+                    if m is not None:
+                        acc |= _self_attrs(m.node)
+        # a property `x` that caches into `_x` counts as the same datum
+        ea |= {"_" + a for a in ea if ci.lookup(a) is not None}
+        extra = sorted(a for a in ha - ea if not callable_attr(ci, a) and a != "_hash")
+        n += 1
+        rep.check(not extra, rule, f"{ci.name}: everything hashed is compared by __eq__", hs.loc(), construct=f"hashed {sorted(ha)}; compared {sorted(ea)}", detail="" if not extra else f"__hash__ reads {extra} which __eq__ ignores: objects that compare equal can hash differently", function=hs.qualname)
+    rets = [r for r in walk_no_nested(eq.node) if isinstance(r, ast.Return) and r.value is not None]
+    can_true = any(not (isinstance(r.value, ast.Constant) and r.value.value is False) and not (isinstance(r.value, ast.Name) and r.value.id == "NotImplemented") for r in rets)
+    n += 1
+    rep.check(can_true, rule, f"{ci.name}.__eq__ has a path returning True", eq.loc(), construct="; ".join(sorted({norm(r.value)[:30] for r in rets})), detail="" if can_true else "no object is ever equal to another (not even to itself)", function=eq.qualname)
+    # one-directional dict comparison
+    for loop in [l for l in walk_no_nested(eq.node) if isinstance(l, ast.For)]:
+        it = loop.iter
+        if isinstance(it, ast.Call) and isinstance(it.func, ast.Attribute) and it.func.attr == "items" and isinstance(it.func.value, ast.Attribute) and isinstance(it.func.value.value, ast.Name) and it.func.value.value.id == "self":
+            fld = it.func.value.attr
+            gets = [c for c in ast.walk(loop) if isinstance(c, ast.Call) and isinstance(c.func, ast.Attribute) and c.func.attr == "get" and norm(c.func.value) == f"{oth}.{fld}"]
+            if not gets:
+                continue
+            n += 1
+            txt = norm(eq.node)
+            both = f"len(self.{fld}) != len({oth}.{fld})" in txt or f"len(self.{fld}) == len({oth}.{fld})" in txt or f"for {norm(loop.target)} in {oth}.{fld}.items()" in txt or f"self.{fld}.keys() == {oth}.{fld}.keys()" in txt or f"set(self.{fld}) == set({oth}.{fld})" in txt
+            rep.check(both, rule, f"{ci.name}.__eq__ compares {fld} in both directions", eq.loc(loop), construct=f"for ... in self.{fld}.items(): {oth}.{fld}.get(...)" + ("" if both else f" without a length / reverse test on {fld}"), detail="" if both else f"an object whose {fld} is a strict subset of the other's compares equal one way round only (a == b but b != a) and the two hash differently", function=eq.qualname)
+    return n
+
+
+def callable_attr(ci: ClassInfo, name: str) -> bool:
+    return ci.lookup(name) is not None
+
+
+# ----------------------------------------------------------------------------- T3 validate-before-commit
+def writes_then_raises(cfg: CFG, write: CFGNode, explicit_only: bool = True) -> Optional[List[CFGNode]]:
+    """A path on which `write` executes and an exception then leaves the function (None if there is none).
+    With explicit_only, only `raise` statements count (the CFG must be built without implicit raises)."""
+    from .dataflow import feasible_path
+
+    for succ in cfg.g.successors(write):
+        if _has_label(cfg.g[write][succ].get("label"), "exc"):
+            continue
+        if succ is cfg.raise_exit:
+            continue
+        p = feasible_path(cfg, succ, cfg.raise_exit)
+        if p is not None:
+            return [write] + p
+    return None
+
+
+def tracked_writes(cfg: CFG, recv_fields: Set[str], recv: str = "self", params: Set[str] = frozenset()) -> List[Tuple[CFGNode, str]]:
+    """CFG nodes that mutate recv.<field> (store, subscript store, mutator call) or mutate a container
+    parameter in place."""
+    out = []
+    for n in cfg.nodes:
+        if n.ast is None or n.kind not in ("stmt",):
+            continue
+        for f in _stores_through(n.ast, recv):
+            if f in recv_fields:
+                out.append((n, f"{recv}.{f}"))
+        for x in ast.walk(n.ast):
+            if isinstance(x, ast.Assign):
+                for t in x.targets:
+                    if isinstance(t, ast.Subscript) and isinstance(t.value, ast.Name) and t.value.id in params:
+                        out.append((n, t.value.id))
+            elif isinstance(x, ast.Call) and isinstance(x.func, ast.Attribute) and x.func.attr in MUTATORS and isinstance(x.func.value, ast.Name) and x.func.value.id in params:
+                out.append((n, x.func.value.id))
+    return out
